@@ -779,8 +779,8 @@ func setIn(cur AV, path []ResolvedElem, v AV) (AV, bool) {
 	return cur, true
 }
 
-// removeAt removes the value at path. result: 0 removed / no-op on missing,
-// 1 parent exists with the wrong kind.
+// removeAt removes the value at path. result: 0 removed / no-op on a missing
+// last element, 1 parent exists with the wrong kind, 2 a parent is missing.
 func removeAt(item Item, path []ResolvedElem) int {
 	if len(path) == 1 {
 		delete(item, path[0].Name)
@@ -788,7 +788,7 @@ func removeAt(item Item, path []ResolvedElem) int {
 	}
 	root, ok := item[path[0].Name]
 	if !ok {
-		return 0
+		return 2
 	}
 	nv, code := removeIn(root, path[1:])
 	item[path[0].Name] = nv
@@ -802,6 +802,9 @@ func removeIn(cur AV, path []ResolvedElem) (AV, int) {
 			return cur, 1
 		}
 		if el.Index >= len(cur.L) {
+			if len(path) > 1 {
+				return cur, 2
+			}
 			return cur, 0
 		}
 		if len(path) == 1 {
@@ -817,6 +820,9 @@ func removeIn(cur AV, path []ResolvedElem) (AV, int) {
 	}
 	child, ok := cur.M[el.Name]
 	if !ok {
+		if len(path) > 1 {
+			return cur, 2
+		}
 		return cur, 0
 	}
 	if len(path) == 1 {
@@ -1088,8 +1094,11 @@ func ApplyUpdate(u Update, base Item, env Env, keyAttrs []string) UpdateResult {
 	})
 	rem = append(remIdx, remOther...)
 	for _, a := range rem {
-		if removeAt(work, a.path) == 1 {
+		switch removeAt(work, a.path) {
+		case 1:
 			weak, why = true, "REMOVE through a value of the wrong kind"
+		case 2:
+			weak, why = true, "REMOVE below a missing parent"
 		}
 	}
 	return UpdateResult{Item: work, Weak: weak, Why: why}
